@@ -24,6 +24,7 @@ class IssueContent:
         self.reg = get_registry(ctx)
         self.site_by_call = {id(s.call): s for s in self.reg.sites}
         self.summary = {}
+        self.attr_content = {}
         self._resolved = {}
         self.decorate_fn = self.prog.find_function("ErrorHandler." + DECORATE)
         warn = self.reg.severity["WARNING"]
@@ -79,8 +80,15 @@ class IssueContent:
             for x in e.elts:
                 out |= self.expr_content(x, f, state)
             return out
-        if isinstance(e, ast.Attribute) and isinstance(e.value, ast.Name) and e.value.id == "self":
+        if isinstance(e, ast.Attribute) and isinstance(e.value, ast.Name) and e.value.id == "self" and \
+                ("self." + e.attr) in state:
             return set(state.get("self." + e.attr, ()))
+        if isinstance(e, ast.Attribute):
+            # an issue list kept on an object (sidecar._extract_definition_issues) or exposed by a property (.issues)
+            out = set(self.attr_content.get(e.attr, ()))
+            for pf in self.cg._prop_names.get(e.attr, []):
+                out |= self.summary.get(pf, set())
+            return out
         return set()
 
     def analyse(self, f, report=None):
@@ -149,11 +157,31 @@ class IssueContent:
         # the APIs themselves
         for api, f in self.reg.api_funcs.items():
             self.summary[f] = set()
+        # property getters that may expose issue lists
+        props = [pf for lst in self.cg._prop_names.values() for pf in lst if "issue" in pf.name]
+        funcs = funcs + [pf for pf in props if pf not in funcs]
         changed = True
         rounds = 0
         while changed and rounds < 12:
             changed = False
             rounds += 1
+            # issue lists stored on objects: union content of every value assigned / added to self.<attr>
+            for f in self.prog.functions.values():
+                for n in walk_no_nested(f.node):
+                    tgt, val = None, None
+                    if isinstance(n, ast.Assign) and len(n.targets) == 1:
+                        tgt, val = n.targets[0], n.value
+                    elif isinstance(n, ast.AugAssign):
+                        tgt, val = n.target, n.value
+                    elif isinstance(n, ast.Expr) and isinstance(n.value, ast.Call) and isinstance(n.value.func, ast.Attribute) \
+                            and n.value.func.attr in ("extend", "append") and n.value.args:
+                        tgt, val = n.value.func.value, n.value.args[0]
+                    if isinstance(tgt, ast.Attribute) and isinstance(tgt.value, ast.Name) and tgt.value.id == "self" \
+                            and "issue" in tgt.attr:
+                        c = self.expr_content(val, f, {})
+                        if c - self.attr_content.get(tgt.attr, set()):
+                            self.attr_content[tgt.attr] = self.attr_content.get(tgt.attr, set()) | c
+                            changed = True
             for f in funcs:
                 new = self.analyse(f)
                 if new != self.summary.get(f, set()):
